@@ -937,6 +937,11 @@ class Interp:
         if isinstance(e.op, ast.Not):
             if isinstance(v, Pred): return v.negate()
             return not self.truth(v, e.operand)
+        if isinstance(e.op, ast.Invert):
+            if isinstance(v, Pred): return v.negate()
+            if isinstance(v, (bool, np.bool_)): return not v
+            if isinstance(v, int): return ~v
+            if isinstance(v, Sym): return Pred('sym', v).negate()
         raise Top("unary operator")
 
     def ev_BoolOp(self, e, env):
